@@ -69,14 +69,59 @@ pub fn check_civil(z: &Zone, c: i128) -> CaseResult {
             f.msg = format!("[clause {}] {}", f.sig, f.msg);
             f.sig = sfx;
         }
+        // one listed finding: rules whose daylight period is shorter than the clock shift
+        let hostile = zones::POSIX_ADVERSARIAL.iter().any(|p| z.label.strip_prefix("posix:") == Some(*p));
+        let route_clause = f.sig.ends_with("-offset") || f.sig.ends_with("-datetime") || f.sig.ends_with("-differs-from-compatible");
+        if hostile && !route_clause && !f.sig.starts_with("year-spill") {
+            f.msg = format!("[clause {}] {}", f.sig, f.msg);
+            f.sig = "posix-rule-with-daylight-period-shorter-than-its-shift".into();
+        }
         f
     })
+}
+
+/// Every route from a civil time to a Zoned must hand back a value that is consistent with the
+/// zone (stored offset = zone's offset at the stored instant, stored civil time = that instant at
+/// that offset), and the routes documented as "compatible" must agree with each other. Holds for
+/// any zone data, including where the reference cannot say which instant is "right".
+fn routes_consistent(z: &Zone, dt: DateTime) -> CaseResult {
+    let az = z.tz.to_ambiguous_zoned(dt);
+    let routes = [
+        ("zoned-compatible", az.clone().compatible()),
+        ("zoned-earlier", az.clone().earlier()),
+        ("zoned-later", az.clone().later()),
+        ("tz-to-zoned", z.tz.to_zoned(dt)),
+        ("dt-to-zoned", dt.to_zoned(z.tz.clone())),
+    ];
+    let mut compat_ts: Option<Timestamp> = None;
+    for (what, got) in routes {
+        let Ok(zd) = got else { continue };
+        let fl = zd.timestamp().as_nanosecond().div_euclid(NS_PER_SEC) as i64;
+        let ro = z.rz.lookup(fl).off;
+        ensure!(zd.offset().seconds() == ro, format!("{what}-offset"), "{what} (overlapping windows): civil {dt} gave a Zoned with offset {} but the zone says {ro} at {}", zd.offset(), zd.timestamp());
+        let shown = Offset::from_seconds(ro).unwrap().to_datetime(zd.timestamp());
+        ensure!(zd.datetime() == shown, format!("{what}-datetime"), "{what} (overlapping windows): Zoned datetime {} but its instant displays {shown}", zd.datetime());
+        if what == "zoned-compatible" {
+            compat_ts = Some(zd.timestamp());
+        } else if what == "tz-to-zoned" || what == "dt-to-zoned" {
+            if let Some(c0) = compat_ts {
+                ensure!(zd.timestamp() == c0, format!("{what}-differs-from-compatible"), "{what}: civil {dt} -> {} but to_ambiguous_zoned().compatible() -> {c0}", zd.timestamp());
+            }
+        }
+    }
+    Ok(())
 }
 
 fn check_civil_inner(z: &Zone, c: i128) -> CaseResult {
     let dt = civil_to_dt(c);
     let csec = c.div_euclid(NS_PER_SEC) as i64;
     let want = z.rz.resolve(csec);
+    let hostile = zones::POSIX_ADVERSARIAL.iter().any(|p| z.label.strip_prefix("posix:") == Some(*p));
+    if want == Civil::Weird || hostile {
+        // windows of neighbouring transitions overlap (or may): which instant is "right" is
+        // outside the statement, consistency of what is handed back is not
+        routes_consistent(z, dt)?;
+    }
     if want == Civil::Weird {
         return Ok(());
     }
@@ -309,7 +354,15 @@ pub fn resolve_civil_probe(zs: &[Arc<Zone>], p: &CivilProbe) -> (Arc<Zone>, i128
 
 fn universe_all() -> &'static Vec<Arc<Zone>> {
     static U: std::sync::OnceLock<Vec<Arc<Zone>>> = std::sync::OnceLock::new();
-    U.get_or_init(|| zones::universe(true))
+    U.get_or_init(|| {
+        let mut v = zones::universe(true);
+        // hostile rules (gap reaching past the next transition): listed often enough to get a
+        // fair share next to ~1800 files
+        for _ in 0..40 {
+            v.extend(zones::posix_adversarial_zones().iter().cloned());
+        }
+        v
+    })
 }
 
 fn test_generated(p: &CivilProbe, cx: &mut Cx) -> CaseResult {
